@@ -25,9 +25,8 @@ Record kst := mkk {
   k_streams : Z;     (* len(t.activeStreams) *)
   k_closed : bool;   (* transport closed by keepalive *)
   k_ack : bool;      (* harness: the peer acknowledges pings (an ack is a read at the same instant) *)
-  k_ping : Z;        (* ghost: when the last keepalive ping was sent *)
-  k_wake : bool }.   (* ghost: that ping was a wake-up ping and no read has been noticed since *)
-Definition kinit (c : kcfg) := mkk 0 0 0 false 0 (kc_time c) false 0 false false 0 false.
+  k_ping : Z }.      (* ghost: when the last keepalive ping was sent *)
+Definition kinit (c : kcfg) := mkk 0 0 0 false 0 (kc_time c) false 0 false false 0.
 
 (* "if !outstandingPing { put(ping); timeoutLeft = Timeout; outstanding = true };
     sleep = min(Time, timeoutLeft); timeoutLeft -= sleep; timer.Reset(sleep)" at time t *)
@@ -36,7 +35,7 @@ Definition ping_and_sleep (c : kcfg) (s : kst) (t : Z) : kst * list (Z * Z) :=
   let left := if fresh then kc_timeout c else k_left s in
   let sleep := Z.min (kc_time c) left in
   (mkk t (if fresh && k_ack s then t else k_last s) (k_prev s) true (left - sleep) (t + sleep) false
-       (k_streams s) false (k_ack s) (if fresh then t else k_ping s) (k_wake s),
+       (k_streams s) false (k_ack s) (if fresh then t else k_ping s),
    if fresh then [(6, t)] else []).
 
 (* one firing of the timer, at time k_timer s *)
@@ -45,11 +44,11 @@ Definition fire (c : kcfg) (s : kst) : kst * list (Z * Z) :=
   if k_prev s <? k_last s then
     (* read activity since the last check: next firing Time after the last read (at once if
        that is already past) *)
-    (mkk t (k_last s) (k_last s) false (k_left s) (Z.max t (k_last s + kc_time c)) false (k_streams s) false (k_ack s) (k_ping s) false, [])
+    (mkk t (k_last s) (k_last s) false (k_left s) (Z.max t (k_last s + kc_time c)) false (k_streams s) false (k_ack s) (k_ping s), [])
   else if k_out s && (k_left s <=? 0) then
-    (mkk t (k_last s) (k_prev s) (k_out s) (k_left s) t false (k_streams s) true (k_ack s) (k_ping s) (k_wake s), [(8, t)])
+    (mkk t (k_last s) (k_prev s) (k_out s) (k_left s) t false (k_streams s) true (k_ack s) (k_ping s), [(8, t)])
   else if (k_streams s <? 1) && negb (kc_permit c) then
-    (mkk t (k_last s) (k_prev s) false (k_left s) t true (k_streams s) false (k_ack s) (k_ping s) (k_wake s), [])
+    (mkk t (k_last s) (k_prev s) false (k_left s) t true (k_streams s) false (k_ack s) (k_ping s), [])
   else ping_and_sleep c s t.
 
 (* let virtual time pass up to (not including) target *)
@@ -58,7 +57,7 @@ Fixpoint advance (fuel : nat) (c : kcfg) (s : kst) (target : Z) : kst * list (Z 
   | O => (s, [])
   | S f =>
     if k_closed s || k_dorm s || (target <=? k_timer s) then
-      (mkk target (k_last s) (k_prev s) (k_out s) (k_left s) (k_timer s) (k_dorm s) (k_streams s) (k_closed s) (k_ack s) (k_ping s) (k_wake s), [])
+      (mkk target (k_last s) (k_prev s) (k_out s) (k_left s) (k_timer s) (k_dorm s) (k_streams s) (k_closed s) (k_ack s) (k_ping s), [])
     else
       let '(s1, e1) := fire c s in
       let '(s2, e2) := advance f c s1 target in (s2, e1 ++ e2)
@@ -67,19 +66,23 @@ Fixpoint advance (fuel : nat) (c : kcfg) (s : kst) (target : Z) : kst * list (Z 
 Inductive kop := KWait | KRead | KOpen | KCloseStream | KAckOn | KAckOff.
 
 Definition act (c : kcfg) (s : kst) (o : kop) : kst * list (Z * Z) :=
-  let set_last s v := mkk (k_now s) v (k_prev s) (k_out s) (k_left s) (k_timer s) (k_dorm s) (k_streams s) (k_closed s) (k_ack s) (k_ping s) (k_wake s) in
-  let set_streams s v := mkk (k_now s) (k_last s) (k_prev s) (k_out s) (k_left s) (k_timer s) (k_dorm s) v (k_closed s) (k_ack s) (k_ping s) (k_wake s) in
-  let set_ack s v := mkk (k_now s) (k_last s) (k_prev s) (k_out s) (k_left s) (k_timer s) (k_dorm s) (k_streams s) (k_closed s) v (k_ping s) (k_wake s) in
+  let set_last s v := mkk (k_now s) v (k_prev s) (k_out s) (k_left s) (k_timer s) (k_dorm s) (k_streams s) (k_closed s) (k_ack s) (k_ping s) in
+  let set_streams s v := mkk (k_now s) (k_last s) (k_prev s) (k_out s) (k_left s) (k_timer s) (k_dorm s) v (k_closed s) (k_ack s) (k_ping s) in
+  let set_ack s v := mkk (k_now s) (k_last s) (k_prev s) (k_out s) (k_left s) (k_timer s) (k_dorm s) (k_streams s) (k_closed s) v (k_ping s) in
   if k_closed s then (s, []) else
   match o with
   | KWait => (s, [])
   | KRead => (set_last s (k_now s), [])
   | KOpen =>
     let s1 := set_streams s (k_streams s + 1) in
-    (* wake-up: prevNano = lastRead, then the ping *)
     if k_dorm s then
-      ping_and_sleep c (mkk (k_now s1) (k_last s1) (k_last s1) (k_out s1) (k_left s1) (k_timer s1) (k_dorm s1)
-                            (k_streams s1) (k_closed s1) (k_ack s1) (k_ping s1) true) (k_now s)
+      if k_prev s <? k_last s then
+        (* a byte was read while dormant: read activity like any other - the next ping is due
+           Time after it, at once if that is already past *)
+        let s2 := mkk (k_now s) (k_last s) (k_last s) false (k_left s) (Z.max (k_now s) (k_last s + kc_time c)) false
+                      (k_streams s + 1) false (k_ack s) (k_ping s) in
+        if k_timer s2 <=? k_now s then fire c s2 else (s2, [])
+      else ping_and_sleep c s1 (k_now s)
     else (s1, [])
   | KCloseStream => (if 0 <? k_streams s then set_streams s (k_streams s - 1) else s, [])
   | KAckOn => (set_ack s true, [])
@@ -211,30 +214,27 @@ Definition evs (ob : word) : list (Z * Z) := match ob with [] => [] | _ :: r => 
 
 (* clause ids, keepalive loop (classification of the moment from the op history, replayed on
    the model; the close / ping times are the implementation's):
-   2 closed by keepalive only if nothing was read during the last Time (closes that follow an
-     ordinary, timer-driven ping)
+   2 closed by keepalive only if nothing was read during the last Time
    3 the close comes exactly Timeout after the last keepalive ping
-   4 after a wake-up from dormancy that follows a byte the loop has not looked at, a dead peer is
-     closed no later than Timeout after the wake-up
-   5 clause 2 for a close that follows a wake-up ping (literal reading of "a connection that
-     receives some byte at least once every Time is never closed"; refuted:
-     C15_wake_ping_kills_recently_heard_peer)
+   4 after a wake-up from dormancy (at a) that follows a byte (at t0) the loop had not looked at,
+     a peer that stays silent is closed no later than max(t0 + Time, a) + Timeout
+   5 clause 2 for the closes that follow such a wake-up
    clause ids, ping-abuse ledger:
    6 GOAWAY(ENHANCE_YOUR_CALM) only in answer to a ping that came too early (less than MinTime
      after the previous one with streams / PermitWithoutStream, less than two hours otherwise)
    7 the third too-early ping not separated by server-sent headers/data is answered by GOAWAY *)
-Record kthread := mkkt { h_ping : Z; h_wake : Z }.   (* last ping seen; wake-up time with an unobserved read, or -1 *)
+Record kthread := mkkt { h_ping : Z; h_wake : Z }.   (* last ping seen; max(t0 + Time, a) of a wake-up with an unobserved read, or -1 *)
 Definition kt0 := mkkt 0 (-1).
 
 (* one event of an observation: a ping is remembered, a close is checked against the last read
    (lastv), the last ping (p) and, after a stale wake-up (hw >= 0), the literal bound *)
-Definition kcl_step (c : kcfg) (lastv hw : Z) (wk : bool) (acc : list (Z * Z * bool) * Z) (e : Z * Z) : list (Z * Z * bool) * Z :=
+Definition kcl_step (c : kcfg) (lastv hw : Z) (acc : list (Z * Z * bool) * Z) (e : Z * Z) : list (Z * Z * bool) * Z :=
   let '(cl, p) := acc in
   if fst e =? 6 then (cl, snd e)
   else if fst e =? 8 then
-    (cl ++ [ (2, snd e, wk || (lastv + kc_time c <? snd e)); (3, snd e, snd e =? p + kc_timeout c);
+    (cl ++ [ (2, snd e, (0 <=? hw) || (lastv + kc_time c <? snd e)); (3, snd e, snd e =? p + kc_timeout c);
              (4, snd e, (hw <? 0) || (snd e <=? hw + kc_timeout c));
-             (5, snd e, negb wk || (lastv + kc_time c <? snd e)) ], p)
+             (5, snd e, (hw <? 0) || (lastv + kc_time c <? snd e)) ], p)
   else (cl, p).
 
 Definition kclause (c : kcfg) (s : kst) (h : kthread) (x : Z) (o : kop) (ob : word) : list (Z * Z * bool) * kthread :=
@@ -246,9 +246,9 @@ Definition kclause (c : kcfg) (s : kst) (h : kthread) (x : Z) (o : kop) (ob : wo
               | _ => false
               end in
   (* ... and nothing has been read, no stream closed, no ack switched on since *)
-  let h_wake' := if wake then k_now s1
+  let h_wake' := if wake then Z.max (k_now s1) (k_last s1 + kc_time c)
                  else match o with KRead | KCloseStream | KAckOn => -1 | _ => h_wake h end in
-  let '(cl, p) := fold_left (kcl_step c (k_last s') h_wake' (k_wake s')) (evs ob) ([], h_ping h) in
+  let '(cl, p) := fold_left (kcl_step c (k_last s') h_wake') (evs ob) ([], h_ping h) in
   (cl, mkkt p h_wake').
 
 Fixpoint kclauses (c : kcfg) (s : kst) (h : kthread) (ops : list (Z * kop)) (obs : list word) : list (Z * Z * bool) :=
@@ -293,7 +293,8 @@ Definition clauses (cfg : word) (ops obs : list word) : list (Z * Z * bool) :=
   | _ => [(0, 0, false)]
   end.
 
-Definition finding_clause (c : Z) : bool := c =? 5.
+(* no literal sentence of C15 is refuted any more *)
+Definition finding_clause (c : Z) : bool := false.
 Definition holds_b (cfg : word) (ops obs : list word) : bool :=
   forallb (fun c => finding_clause (fst (fst c)) || snd c) (clauses cfg ops obs).
 
